@@ -245,14 +245,17 @@ namespace embedded_pairing::wkdibe {
                 if (sub_from && add_to) {
                     if (!ID::equal(from.attrs[j].id, to.attrs[k].id)) {
                         if (diff.subtract(to.attrs[k].id, from.attrs[j].id)) {
-                            diff.add(diff, group_order);
+                            diff.subtract(from.attrs[j].id, to.attrs[k].id);
+                            temp.multiply(parent.b[i].hexp, diff);
+                            temp.negate(temp);
+                        } else {
+                            temp.multiply(parent.b[i].hexp, diff);
                         }
-                        temp.multiply(parent.b[i].hexp, diff);
                         sk.a0.add(sk.a0, temp);
                     }
                 } else if (sub_from) {
-                    diff.subtract(group_order, from.attrs[j].id);
-                    temp.multiply(parent.b[i].hexp, diff);
+                    temp.multiply(parent.b[i].hexp, from.attrs[j].id);
+                    temp.negate(temp);
                     sk.a0.add(sk.a0, temp);
                 } else if (add_to) {
                     temp.multiply(parent.b[i].hexp, to.attrs[k].id);
@@ -292,16 +295,19 @@ namespace embedded_pairing::wkdibe {
             if (from_attr.idx == to_attr.idx) {
                 if (!ID::equal(from_attr.id, to_attr.id)) {
                     if (diff.subtract(to_attr.id, from_attr.id)) {
-                        diff.add(diff, group_order);
+                        diff.subtract(from_attr.id, to_attr.id);
+                        temp.multiply(params.h[to_attr.idx], diff);
+                        temp.negate(temp);
+                    } else {
+                        temp.multiply(params.h[to_attr.idx], diff);
                     }
-                    temp.multiply(params.h[to_attr.idx], diff);
                     precomputed.prodexp.add(precomputed.prodexp, temp);
                 }
                 i++;
                 j++;
             } else if (from_attr.idx < to_attr.idx) {
-                diff.subtract(group_order, from_attr.id);
-                temp.multiply(params.h[from_attr.idx], diff);
+                temp.multiply(params.h[from_attr.idx], from_attr.id);
+                temp.negate(temp);
                 precomputed.prodexp.add(precomputed.prodexp, temp);
                 i++;
             } else {
@@ -312,8 +318,8 @@ namespace embedded_pairing::wkdibe {
         }
         while (i != from.length) {
             const Attribute& from_attr = from.attrs[i];
-            diff.subtract(group_order, from_attr.id);
-            temp.multiply(params.h[from_attr.idx], diff);
+            temp.multiply(params.h[from_attr.idx], from_attr.id);
+            temp.negate(temp);
             precomputed.prodexp.add(precomputed.prodexp, temp);
             i++;
         }
